@@ -531,6 +531,14 @@ func (self *Value) SetByPath(sub Node, path ...Path) (exist bool, err error) {
 
 	originLen := len(self.raw()) // root buf length
 	err = self.replace(v.Node, sub) // replace ErrorNode bytes by sub Node bytes
+	if exist && (path[l-1].t == PathStrKey || path[l-1].t == PathIntKey) {
+		// an existing map value was replaced: the length prefix of its entry changes with it
+		base := 0
+		if l > 1 {
+			base = address[l-2]
+		}
+		self.fixEntryLength(base, address[l-1], self.l-originLen)
+	}
 	isPacked := path[l-1].t == PathIndex && sub.t.IsPacked()
 	self.updateByteLen(originLen, address, isPacked, path...)
 	return
@@ -547,52 +555,18 @@ func (self *Value) updateByteLen(originLen int, address []int, isPacked bool, pa
 		pathType := path[i].t
 		addressPtr := address[i]
 		if previousType == proto.MESSAGE || (previousType == proto.LIST && isPacked) {
-			newBytes := NewBytesFromPool()
-			// tag
-			buf := rt.BytesFrom(rt.AddPtr(self.v, uintptr(addressPtr)), self.l-addressPtr, self.l-addressPtr)
-			_, tagOffset := protowire.ConsumeVarint(buf)
-			// length
-			length, lenOffset := protowire.ConsumeVarint(buf[tagOffset:])
-			newLength := int(length) + diffLen
-			newBytes = protowire.AppendVarint(newBytes, uint64(newLength))
-			// length == 0 means had been deleted all the data in the field
-			if newLength == 0 {
-				newBytes = newBytes[:0]
+			// a message element of an (unpacked) list is addressed at its length: searchIndex has consumed its tag
+			tagged := !(pathType == PathIndex && previousType == proto.MESSAGE)
+			diffLen += self.fixLength(addressPtr, tagged, diffLen)
+			isPacked = false
+			if pathType == PathStrKey || pathType == PathIntKey {
+				// the value lives in a map entry, which has a length prefix of its own
+				base := 0
+				if i > 0 {
+					base = address[i-1]
+				}
+				diffLen += self.fixEntryLength(base, addressPtr, diffLen)
 			}
-
-			subLen := len(newBytes) - lenOffset
-
-			if subLen == 0 {
-				// no need to change length
-				copy(buf[tagOffset:tagOffset+lenOffset], newBytes)
-				continue
-			}
-
-			// split length
-			srcHead := rt.AddPtr(self.v, uintptr(addressPtr+tagOffset))
-			if newLength == 0 {
-				// delete tag
-				srcHead = rt.AddPtr(self.v, uintptr(addressPtr))
-				subLen -= tagOffset
-			}
-
-			srcTail := rt.AddPtr(self.v, uintptr(addressPtr+tagOffset+lenOffset))
-			l0 := int(uintptr(srcHead) - uintptr(self.v))
-			l1 := len(newBytes)
-			l2 := int(uintptr(self.v) + uintptr(self.l) - uintptr(srcTail))
-
-			// copy three slices into new buffer
-			newBuf := make([]byte, l0+l1+l2)
-			copy(newBuf[:l0], rt.BytesFrom(self.v, l0, l0))
-			copy(newBuf[l0:l0+l1], newBytes)
-			copy(newBuf[l0+l1:l0+l1+l2], rt.BytesFrom(srcTail, l2, l2))
-			self.v = rt.GetBytePtr(newBuf)
-			self.l = int(len(newBuf))
-			if isPacked {
-				isPacked = false
-			}
-			diffLen += subLen
-			FreeBytesToPool(newBytes)
 		}
 
 		if pathType == PathStrKey || pathType == PathIntKey {
@@ -603,6 +577,92 @@ func (self *Value) updateByteLen(originLen int, address []int, isPacked bool, pa
 			previousType = proto.MESSAGE
 		}
 	}
+}
+
+// fixLength adds diff to the length prefix found at pos (behind the field tag if tagged)
+// and returns the change of the buffer size this causes
+func (self *Value) fixLength(pos int, tagged bool, diff int) int {
+	if pos < 0 || pos > self.l {
+		return 0
+	}
+	buf := rt.BytesFrom(rt.AddPtr(self.v, uintptr(pos)), self.l-pos, self.l-pos)
+	// tag
+	tagOffset := 0
+	if tagged {
+		if _, tagOffset = protowire.ConsumeVarint(buf); tagOffset < 0 {
+			return 0
+		}
+	}
+	// length
+	length, lenOffset := protowire.ConsumeVarint(buf[tagOffset:])
+	if lenOffset < 0 {
+		return 0
+	}
+	newLength := int(length) + diff
+	newBytes := NewBytesFromPool()
+	newBytes = protowire.AppendVarint(newBytes, uint64(newLength))
+	// length == 0 means had been deleted all the data in the field
+	if newLength == 0 && tagged {
+		newBytes = newBytes[:0]
+	}
+
+	subLen := len(newBytes) - lenOffset
+
+	if subLen == 0 {
+		// no need to change length
+		copy(buf[tagOffset:tagOffset+lenOffset], newBytes)
+		FreeBytesToPool(newBytes)
+		return 0
+	}
+
+	// split length
+	srcHead := rt.AddPtr(self.v, uintptr(pos+tagOffset))
+	if newLength == 0 && tagged {
+		// delete tag
+		srcHead = rt.AddPtr(self.v, uintptr(pos))
+		subLen -= tagOffset
+	}
+
+	srcTail := rt.AddPtr(self.v, uintptr(pos+tagOffset+lenOffset))
+	l0 := int(uintptr(srcHead) - uintptr(self.v))
+	l1 := len(newBytes)
+	l2 := int(uintptr(self.v) + uintptr(self.l) - uintptr(srcTail))
+
+	// copy three slices into new buffer
+	newBuf := make([]byte, l0+l1+l2)
+	copy(newBuf[:l0], rt.BytesFrom(self.v, l0, l0))
+	copy(newBuf[l0:l0+l1], newBytes)
+	copy(newBuf[l0+l1:l0+l1+l2], rt.BytesFrom(srcTail, l2, l2))
+	self.v = rt.GetBytePtr(newBuf)
+	self.l = int(len(newBuf))
+	FreeBytesToPool(newBytes)
+	return subLen
+}
+
+// fixEntryLength adds diff to the length prefix of the map entry that contains the position at,
+// looking through the entries that start at base, and returns the change of the buffer size
+func (self *Value) fixEntryLength(base int, at int, diff int) int {
+	buf := self.raw()
+	pos := base
+	for pos >= 0 && pos < at && at <= len(buf) {
+		_, tagOffset := protowire.ConsumeVarint(buf[pos:])
+		if tagOffset <= 0 {
+			break
+		}
+		length, lenOffset := protowire.ConsumeVarint(buf[pos+tagOffset:])
+		if lenOffset <= 0 {
+			break
+		}
+		end := pos + tagOffset + lenOffset + int(length)
+		if end > at {
+			return self.fixLength(pos, true, diff)
+		}
+		if end <= pos {
+			break
+		}
+		pos = end
+	}
+	return 0
 }
 
 // UnsetByPath searches longitudinally and unsets a sub value at the given path from the value.
